@@ -272,7 +272,7 @@ class MemoryFileSystem(FileSystem):
     file = self._locate(path)
     if isinstance(file, dict):
       raise IsADirectoryError(path)
-    if 'w' in mode:
+    if 'w' in mode or ('a' in mode and file is None):
       # Opening for write starts from an empty file: replace an existing file.
       parent_dir, name = self._parent_and_name(path)
       if isinstance(parent_dir, dict):
@@ -282,6 +282,8 @@ class MemoryFileSystem(FileSystem):
 
     if file is None:
       raise FileNotFoundError(path)
+    if 'a' in mode:
+      file.seek(0, 2)
     return file
 
   def chmod(self, path: Union[str, os.PathLike[str]], mode: int) -> None:
